@@ -10,13 +10,28 @@ def parseKind (s : String) : Except String Kind :=
   | "other" => pure .other
   | _ => throw s!"unknown kind {s}"
 
-def parseRef (j : Json) : Except String Ref := do
+def optChars (j : Json) : Except String (Option (List Char)) :=
+  match j with
+  | Json.null => pure none
+  | v => do return some (← v.getStr?).toList
+
+/-- `{"t":"path","p":…} | {"t":"paths","ps":[…]} | {"t":"file","c":…|null} | {"t":"files","cs":[…|null]} | {"t":"failed"}` -/
+def parseSource (j : Json) : Except String Source := do
+  match (← getStr j "t") with
+  | "path" => return .path (← getChars j "p")
+  | "paths" => return .paths (← getCharsList j "ps")
+  | "file" => return .file (← optChars (← j.getObjVal? "c"))
+  | "files" => return .files (← (← getArr j "cs").mapM optChars)
+  | "failed" => return .failed
+  | t => throw s!"unknown source {t}"
+
+def parseDecl (j : Json) : Except String Decl := do
   let abs ← getChars j "abs"
   let rel ← getChars j "rel"
   let ra ← getBool j "relActive"
   let kind ← parseKind (← getStr j "kind")
-  let v ← getOptStr j "value"
-  return { abs := abs, rel := rel, relActive := ra, kind := kind, value := v.map String.toList }
+  let src ← parseSource (← j.getObjVal? "source")
+  return { abs := abs, rel := rel, relActive := ra, kind := kind, source := src }
 
 def resultJson (r : Result) : Json :=
   jobj [("out", jchars r.out), ("unused", jarr (r.unused.map jchars)), ("unresolved", jbool r.unresolved)]
@@ -26,10 +41,12 @@ def handle (j : Json) : Except String Json := do
   match op with
   | "resolve" =>
     let args ← getChars j "args"
-    let refs ← (← getArr j "refs").mapM parseRef
+    let decls ← (← getArr j "refs").mapM parseDecl
+    let refs := decls.map Decl.toRef
     let p := parse (entries refs) args
-    return jobj [("new", resultJson (resolve refs args)),
-                 ("old", resultJson (resolveOld refs args)),
+    return jobj [("new", resultJson (resolveD decls args)),
+                 ("old", resultJson (resolveOldD decls args)),
+                 ("values", jarr (refs.map fun r => jopt jchars r.value)),
                  ("functional", jbool (functionalB (entries refs))),
                  ("tokens", jarr ((usedKeys p).map jchars)),
                  ("roundtrip", jbool (renderK p == args))]
